@@ -4,6 +4,8 @@ import (
 	"math"
 	"strconv"
 	"strings"
+
+	"github.com/alicebob/sqlittle/internal/ascii"
 )
 
 // Column affinities, see https://sqlite.org/datatype3.html#determination_of_column_affinity
@@ -19,7 +21,7 @@ const (
 
 // columnAffinity gives the affinity of a column with the declared type `typ`.
 func columnAffinity(typ string) affinity {
-	t := strings.ToUpper(typ)
+	t := ascii.Upper(typ)
 	switch {
 	case strings.Contains(t, "INT"):
 		return affInteger
